@@ -9,20 +9,29 @@ def gen_cases(prop, tier, seed, n, profiles=None, frameworks=None, key_hostile=F
         rng = rng_for(prop, seed, i)
         jc = gen.json_case(rng, profile=rng.choice(profiles) if profiles else None)
         opts = gen.options(rng, jc["samples"], frameworks=frameworks)
-        models = [["Root", jc["samples"]]]
-        if rng.random() < 0.15:
-            # a second model name, as the CLI allows (-m A ... -m B ...); sometimes drawn from the same schema, so that
-            # models of the two roots are similar and get merged across roots
-            if rng.random() < 0.5:
-                sch = gen.Schema(rng, jc["profile"])
-                second = sch.samples()
-            else:
-                second = [dict(s) for s in jc["samples"][: rng.randint(1, len(jc["samples"]))]]
-                if rng.random() < 0.5:
-                    second[0]["extra_key"] = 1
-            models.append(["Second", second])
+        models = [["Root", jc["samples"]]] + maybe_second_root(rng, jc["samples"], jc["profile"])
         cases.append({"i": i, "profile": jc["profile"], "models": models, "opts": opts})
     return cases
+
+
+def maybe_second_root(rng, samples, profile, p=0.15):
+    """a second model name, as the CLI allows (-m A ... -m B ...): sometimes drawn from the same schema so that models of the
+    two roots merge across roots; sometimes named like the class a nested object of the first root gets (Profile vs 'profile')"""
+    if rng.random() >= p:
+        return []
+    if rng.random() < 0.5:
+        second = gen.Schema(rng, profile if profile in ("general", "merge", "tree", "strings", "literals", "small") else "general").samples()
+    else:
+        second = [dict(s) for s in samples[: rng.randint(1, len(samples))]]
+        if rng.random() < 0.5:
+            second[0]["extra_key"] = 1
+    name2 = "Second"
+    if rng.random() < 0.4:
+        okeys = [k for smp in samples for k, v in smp.items() if isinstance(v, (dict, list)) and k.isalpha() and k.islower()]
+        if okeys:
+            k = rng.choice(okeys)
+            name2 = (k[:-1] if k.endswith("s") and not k.endswith("ss") else k).capitalize()
+    return [[name2, second]]
 
 
 def shape_stats(samples):
